@@ -65,6 +65,12 @@ CLAIMED["C05"] = {
     "note": "trusts: stdlib zoneinfo for the instants of the endpoints; exactness asserted below 2**33 s and 64 us beyond, as the statement says; the input-universal part of the property (all pairs over years 1..9999) is not decided",
 }
 
+CLAIMED["C14"] = {
+    "text": "Narrow claim - the facets of round-trip fidelity that meet a seam. Restart: pickle bytes produced inside the simulated (warm, concurrent) process are loaded in a fresh fork of a pristine copy of the worker that shares no zone objects or caches with the sender, and must observe exactly like the original. Concurrency: copy, deepcopy and pickle of Durations/Intervals shared between threads while others read their lazily cached slots, and of DateTimes while the nemesis clears the zone cache. Identity: copy == original (for the types the statement names) and copy - original == 0 whatever tzinfo objects the copy shares with the original. Every copy must observe like a second, untouched instance of the value (type, fields, fold of repeated wall times, offset, zone, all duration components and sign, interval endpoints and absolute flag).",
+    "ref": "DESIGN.md §5 C14",
+    "note": "trusts: the observation function as the definition of 'indistinguishable through public accessors'; == is asserted only for Date, Time, Duration and for Intervals without an endpoint on a repeated wall time (PEP 495 makes such aware datetimes unequal across tzinfo objects); the input-universal part (all values x protocols) is sampled, not enumerated",
+}
+
 NOT_APPLICABLE = {
     "C03": "pure function of its arguments and immutable zone data: no clock, shared mutable slot, configuration or I/O in add/subtract with fixed units; nothing for a scheduler or fault injector to vary",
     "C04": "pure function of its arguments (calendar arithmetic + construction rules); Duration fields it reads are written once in __new__; no schedule, clock or fault dependence",
@@ -72,7 +78,6 @@ NOT_APPLICABLE = {
     "C10": "operators read only fields written once in __new__; no lazy slot, global, clock or I/O",
     "C11": "accessors of an immutable value vs the native object with the same fields; any ambient state enters both through the same inherited C code",
     "C13": "pure function of the string; the parsed value is thread-local until returned",
-    "C14": "round-trip fidelity is a function of the value; its one schedule-dependent facet (Duration.__deepcopy__ reading lazily filled slots) is C09's state and is exercised and attributed there",
     "C15": "closed-form integer functions in both backends; no state, clock or I/O",
     "C17": "outcome type is a function of the string and options; the clock only supplies always-valid fields; environment faults are outside 'for any input string and options'",
     "C19": "a generator over immutable endpoints, private to each caller; no shared state, clock or I/O",
@@ -86,7 +91,7 @@ PENDING = {p: "simulation target per DESIGN.md §5, check still under constructi
            for p in ()}
 
 FIX_COMMITS = ["0cac821 (C09 lazy-slot race)", "c2f908d (previous() never terminates across a skipped calendar day; C12/C16)",
-               "2c83944 (next() drifts to 01:00 after a skipped midnight; C16)", "6249586 (C12 week configuration read twice)", "1273e62 (C16 first_of/last_of depend on calendar.setfirstweekday())", "9fab684 (C02 mock local zone read twice)", "fc92ad3 (C06 precise_diff full-month shortcut, Python + Rust)", "b63f456 (Interval.__init__ dropped endpoint fold; C18)", "a0e6037 (zh before/after templates; C18)", "5ef6d18 (nl week_data misplaced; C18)", "89fb712 (Rust ordinal dates on month ends; C08)", "ab5eca4 (z token regex; C08)", "77c9f3a (from_format escaped literals; C08)", "7d62906 + 71470da (Do token in from_format; C08)", "a8ba9ca (instance() of pytz second-pass datetimes; C01)", "df3000b (instance() of pytz.FixedOffset; C01)", "a2ae08e (Interval endpoint order by instant for shared tzinfo; C05/C18)"]
+               "2c83944 (next() drifts to 01:00 after a skipped midnight; C16)", "6249586 (C12 week configuration read twice)", "1273e62 (C16 first_of/last_of depend on calendar.setfirstweekday())", "9fab684 (C02 mock local zone read twice)", "fc92ad3 (C06 precise_diff full-month shortcut, Python + Rust)", "b63f456 (Interval.__init__ dropped endpoint fold; C18)", "a0e6037 (zh before/after templates; C18)", "5ef6d18 (nl week_data misplaced; C18)", "89fb712 (Rust ordinal dates on month ends; C08)", "ab5eca4 (z token regex; C08)", "77c9f3a (from_format escaped literals; C08)", "7d62906 + 71470da (Do token in from_format; C08)", "a8ba9ca (instance() of pytz second-pass datetimes; C01)", "df3000b (instance() of pytz.FixedOffset; C01)", "a2ae08e (Interval endpoint order by instant for shared tzinfo; C05/C18)", "6546eac (Duration deepcopy weeks; C14)", "02aeae7 (Interval deepcopy; C14)", "3598369 (DateTime pickle fold; C14)", "249b599 (Duration pickle years/months; C14)"]
 
 
 def main():
